@@ -163,6 +163,12 @@ def rbytes(rng, n):
     return rng.getrandbits(8 * n).to_bytes(n, "big") if n else b""
 
 
+PSEUDO_METHOD = [b"GET", b"CONNECT", b"OPTIONS", b"", None, b"get"]
+PSEUDO_SCHEME = [b"https", b"http", b"ftp", b"", None]
+PSEUDO_AUTHORITY = [b"localhost", b"", None]
+PSEUDO_PATH = [b"/", b"", b"*", b"relative", None, b"//", b"/ "]
+PSEUDO_PROTOCOL = [None, b"webtransport", b""]
+PSEUDO_STATUS = [b"200", b"", b"abc", b"99", b"1000", b"-1", b"2 0", b"\xc2\xb2"]
 NAME_CLASSES = ["lower", "upper", "nonascii", "ctl", "colon_inside", "pseudo_unknown", "space", "del", "empty_colon"]
 VALUE_CLASSES = ["ascii", "nonutf8", "lone_cont", "nul", "crlf", "lead_ws", "trail_ws", "latin1", "overlong", "empty"]
 SIZES = [1, 2, 7, 8, 100, 1000, 1100, 1300, 3000, 16000, 65536]
@@ -658,6 +664,24 @@ def build(case, ctx):
             return [(sid, data, True)], ("push", "HEADERS")
         return [(sid, data, True)], ("request", fk)
 
+    if fam == "pseudo":
+        # request pseudo-header combinations (absent / empty / unusual values), as a request to a server victim or inside
+        # a PUSH_PROMISE to a client victim; response :status spellings on a response or a push stream
+        mi, si, ai, pi, pr, pos = p
+        fields = []
+        for name, val in () if pos == 3 else ((b":method", PSEUDO_METHOD[mi]), (b":scheme", PSEUDO_SCHEME[si]), (b":authority", PSEUDO_AUTHORITY[ai]),
+                          (b":path", PSEUDO_PATH[pi]), (b":protocol", PSEUDO_PROTOCOL[pr])):
+            if val is not None:
+                fields.append(f_literal(name, val))
+        if pos == 3:
+            fields = [f_literal(b":status", PSEUDO_STATUS[mi % len(PSEUDO_STATUS)])]
+        sid = ctx.new_req()
+        if role == "server":
+            return [(sid, fr(1, block(fields)), True)], ("request", "HEADERS-pseudo")
+        if pos == 3:
+            return [(sid, fr(1, block(fields)), True)], ("request", "HEADERS-status")
+        return [(sid, valid_headers_frame(role) + fr(5, V(2) + block(fields)), True)], ("request", "PUSH_PROMISE-pseudo")
+
     if fam == "dgram":
         (v,) = p
         opts = [b"", V(0), V(0) + b"x", V(5, 8)[:1], V(5, 8)[:4], V(5, 8)[:7], V(5, 2)[:1], V(5, 4)[:3], V(VMAX), V(VMAX) + b"payload",
@@ -861,6 +885,16 @@ def enumerate_cases(proto, role, prefix, tier, seed):
     # stops fitting into the closing packet (the reason must be trimmed, the closing packet must still go out)
     for L in range(1040, 1260):
         out.append({"fam": "hdr", "p": [1, 0, -L, 0, (0, 3)[L % 2]]})
+    for mi in range(len(PSEUDO_METHOD)):
+        for si in range(len(PSEUDO_SCHEME)):
+            for ai in range(len(PSEUDO_AUTHORITY)):
+                for pi in range(len(PSEUDO_PATH)):
+                    for pr in range(len(PSEUDO_PROTOCOL)):
+                        if not thorough and rng.random() < 0.6:
+                            continue
+                        out.append({"fam": "pseudo", "p": [mi, si, ai, pi, pr, 0]})
+    for mi in range(len(PSEUDO_STATUS)):
+        out.append({"fam": "pseudo", "p": [mi, 0, 0, 0, 0, 3]})
     for v in range(17):
         out.append({"fam": "dgram", "p": [v]})
     for v in range(3):
